@@ -142,6 +142,72 @@ def big_boards(tier):
     return gen
 
 
+def medium_phase(tier):
+    from harness import medium
+    def gen():
+        for c in medium.medium_cases(27 if tier == "quick" else 360, base_seed=1):
+            yield dict(kind="medium", seed=c["seed"], n_inner=c["n_inner"])
+    return gen
+
+
+def check_medium(case, v):
+    """Games of 20-300 states: bracket oracle (own Gauss-Seidel from below and from above), residual,
+    pruning on/off differential."""
+    from harness import medium
+    from harness.analysis import bellman_reach
+    game = medium.medium_game(case["seed"], case["n_inner"])
+    n = len(game["players"])
+    v.key = case
+    v.cls("medium", f"medium_states<={64 if n <= 64 else 128 if n <= 128 else 320}")
+    v.nontrivial = True
+    L, U, pos = medium.bracket_reach(game)
+    finals = set(game["final_states"])
+    res = {}
+    for prune in (True, False):
+        o, info = medium.solve_medium(game, prune)
+        if o is None:
+            v.inconclusive = info
+            return v
+        res[prune] = o
+        lab = f"medium game (seed={case['seed']}, {n} states) solve(prune={prune})"
+        if o.kind == "nosol":
+            v.cls("no_solution")
+            if not prune or 0 in pos and U[0] > 1e-5:
+                v.fail("nosol-but-positive", f"{lab} raised no-solution; value of state 0 is in [{L[0]!r}, {U[0]!r}]")
+            continue
+        if o.kind in ("budget", "skipped"):
+            v.inconclusive = "sweep budget / T_c limit (reported by C06)"
+            continue
+        if o.kind != "ok":
+            v.fail("solve-raises", f"{lab}: {o.brief()}", sig=o.kind)
+            continue
+        phat = o.result[3]
+        T = info["T"]
+        b = bellman_reach(game, phat)
+        worst = max(abs(x - y) for x, y in zip(b, phat))
+        if worst > 1e-6 + SLACK:
+            v.fail("residual-above-threshold", f"{lab}: |B p - p| = {worst:.3g} > 1e-6")
+        for s in range(n):
+            if s in finals:
+                if phat[s] != 1:
+                    v.fail("final-not-1", f"{lab}: final state {s} reports {phat[s]!r}")
+            elif s not in pos:
+                if phat[s] > SLACK:
+                    v.fail("exceeds-true-value", f"{lab}: state {s} is worth 0 but reports {phat[s]!r}", sig="zero")
+                    break
+            elif phat[s] > U[s] + 1e-9:
+                v.fail("exceeds-true-value", f"{lab}: state {s} reports {phat[s]!r} > upper bound {U[s]!r}", sig="pos")
+                break
+            elif L[s] - phat[s] > 1e-6 * (T * 1.01 + 2) + 1e-9:
+                v.fail("too-far-below", f"{lab}: state {s} reports {phat[s]!r}, lower bound {L[s]!r}, "
+                                        f"allowed gap {1e-6 * (T * 1.01 + 2):.3g} (T^={T:.3g})")
+                break
+    a, b2 = res.get(True), res.get(False)
+    if a is not None and b2 is not None and a.kind == "ok" and b2.kind == "ok" and a.result[3] != b2.result[3]:
+        v.fail("prune-changes-probabilities", "medium game: probabilities differ between pruning modes")
+    return v
+
+
 def phases(tier):
     mp = 256 if tier == "quick" else 4096
     return [
